@@ -17,6 +17,7 @@ plan = X.plan
 
 
 def run_shard(spec, acc):
+    spec = dict(spec, prop=ID)
     def make(run, acc):
         led = Ledger(run, acc)
         run.ledger = led
